@@ -395,6 +395,11 @@ fn fp_pow(a: &U256, e: &U256) -> (r: U256)
         lemma_params();
         assert(canon(SM2_MODP_MONT_ONE@) && fe(SM2_MODP_MONT_ONE@) == 1) by(compute);
         lemma_fp_small(1, P());
+        // fp_inv (a method of the impl whose fp_sqr/fp_mul are called here) calls fp_pow, so fp_pow sits in a call-graph cycle and Verus
+        // emits vstd's blanket impl `DoubleEndedIterator => DoubleEndedIteratorSpec` (needed by the `.rev()` loop) only after this
+        // function unless it is mentioned explicitly; this ghost mention creates the dependency (it states nothing).
+        let rg: core::ops::Range<i32> = 0..4;
+        let pb = vstd::std_specs::iter::DoubleEndedIteratorSpec::peek_back(&rg, 0);
     }
     for i in it: (0..4).rev()
         invariant
